@@ -1,7 +1,73 @@
-(* C30 placeholder while the pipeline is brought up *)
+(* C30: HPACK encoding round-trips and respects table limits.  Property theorems only. *)
 From Coq Require Import List ZArith Bool.
-From Bfe Require Import lib.Val model.Huffman model.Hpack run.RunC30.
+From Bfe Require Import lib.Val lib.Bytes gen.HpackTables model.Huffman model.Hpack run.RunC30
+  proofs.HuffmanProofs proofs.HpackProofs proofs.HpackSeqProofs.
+Import ListNotations.
 Open Scope Z_scope.
-Example C30_tables : table_wf = true.
-Proof. vm_compute. reflexivity. Qed.
-Print Assumptions C30_tables.
+
+(* Facts about the Huffman table translated from tables.go (finite; vm_compute over all 256 symbols and all
+   65536 pairs): every code has 5..30 bits and fits its length; no code is a prefix of another code or of EOS
+   (and EOS of none); the Kraft sum of the 256 codes plus EOS is exactly 1 (complete prefix code). *)
+Theorem C30_huff_table_facts : table_wf = true /\ prefix_free = true /\ kraft_complete = true.
+Proof. exact (conj table_wf_true (conj prefix_free_true kraft_complete_true)). Qed.
+Print Assumptions C30_huff_table_facts.
+
+(* For EVERY byte string s the Huffman encoder output (codes back to back, padded with ones) has exactly
+   HuffmanEncodeLength(s) bytes and is decoded back to s by the RFC 7541 bit-level decoder. *)
+Theorem C30_huff_roundtrip : forall s, wf_bytes s = true ->
+  blen (huff_encode s) = huff_enc_len s /\ rfc_huff_decode (huff_encode s) = Some s.
+Proof. exact (fun s H => conj (proj1 (proj2 (huff_encode_facts s H))) (huff_roundtrip_rfc s H)). Qed.
+Print Assumptions C30_huff_roundtrip.
+
+(* Prefixed integers: for every prefix size 1..7, every type-bit pattern above the prefix and every value
+   below 2^62, readVarInt applied to appendVarInt's bytes followed by anything returns the value and the rest. *)
+Theorem C30_varint_roundtrip : forall n flag i rest,
+  1 <= n <= 7 -> 0 <= i < 2 ^ 62 -> 0 <= flag -> flag mod 2 ^ n = 0 ->
+  exists b0 t, or_first flag (append_varint n i) = b0 :: t /\ flag <= b0 < flag + 2 ^ n
+               /\ read_varint n ((b0 :: t) ++ rest) = ROk i rest.
+Proof. exact varint_enc. Qed.
+Print Assumptions C30_varint_roundtrip.
+
+(* String literals (raw or Huffman, whichever appendHpackString picks) read back exactly, for any Huffman
+   decoder hd that inverts the encoder (hd_ok); the RFC decoder is such a decoder (C30_hd_ok_spec). *)
+Theorem C30_string_roundtrip : forall hd s rest,
+  hd_ok hd -> wf_bytes s = true -> blen s < 2 ^ 62 ->
+  read_string hd (append_hpack_string s ++ rest) = ROk s rest.
+Proof. exact string_roundtrip. Qed.
+Print Assumptions C30_string_roundtrip.
+Theorem C30_hd_ok_spec : hd_ok huff_decode_spec.
+Proof. exact hd_ok_spec. Qed.
+Print Assumptions C30_hd_ok_spec.
+
+(* HEADLINE.  For every negotiated limit L (0..2^32-1) and EVERY sequence of operations
+   WriteField(f) / SetMaxDynamicTableSize(v) / end-of-block (fields: any byte strings shorter than 2^61,
+   any never-index flag; v any non-negative number), the model encoder never panics and every block it emits
+   is decoded by the model decoder (same settings, fed block by block) without error into exactly the fields
+   written into that block - names, values and never-index flags - and after every block both dynamic tables
+   satisfy 0 <= size <= maxSize and size <= L (blocks_ok is the executable statement of all this; it is also
+   what prop_C30 evaluates on the real implementation's output).  The proof is a simulation invariant
+   (sim: decoder table = encoder table modulo the size updates still pending in the encoder). *)
+Theorem C30_sequence_roundtrip : forall hd L ops,
+  hd_ok hd -> 0 <= L <= uint32_max -> Forall wf_op ops ->
+  exists out, run_C30_with hd L ops = Some out /\ blocks_ok L (expected_blocks ops []) out = true.
+Proof. exact sequence_roundtrip_closed. Qed.
+Print Assumptions C30_sequence_roundtrip.
+
+(* the same with the RFC bit-level Huffman decoder plugged in: no hypothesis left *)
+Theorem C30_sequence_roundtrip_rfc_huffman : forall L ops,
+  0 <= L <= uint32_max -> Forall wf_op ops ->
+  exists out, run_C30_with huff_decode_spec L ops = Some out /\ blocks_ok L (expected_blocks ops []) out = true.
+Proof. exact (fun L ops => sequence_roundtrip_closed huff_decode_spec L ops hd_ok_spec). Qed.
+Print Assumptions C30_sequence_roundtrip_rfc_huffman.
+
+(* Non-vacuity: a concrete two-block history with repeated fields, a sensitive field, eviction by a small
+   limit (L = 100) and size updates 50, 0, 4096; it is well-formed, and run through the TRIE decoder model
+   (huff_decode, the one tied to the Go code) it satisfies the same predicate. *)
+Example C30_example_wf : Forall wf_op ex_ops.
+Proof. exact ex_ops_wf. Qed.
+Example C30_example_runs :
+  match run_C30_with huff_decode 100 ex_ops with
+  | Some out => blocks_ok 100 (expected_blocks ex_ops []) out = true /\ length out = 2%nat
+  | None => False
+  end.
+Proof. exact ex_ops_runs. Qed.
